@@ -15,7 +15,7 @@ def runLine (line : String) : String :=
   let toks := (line.trimAscii.toString.splitOn " ").filter (· ≠ "") |>.toArray
   if toks.size = 0 then "#"
   else if (toks[0]!).startsWith "#" then "#"
-  else if toks[0]! = "align" then "ok"
+  else if toks[0]! = "align" ∨ toks[0]! = "place" then "ok"
   else match scalarOp toks with
     | some r => r
     | none => match arrayOp toks with
